@@ -203,6 +203,7 @@ theorem applyBeh_writes_declared (b : Beh) (declared : List String) (v : Option 
     · cases h
   | collOf tag n => simp only [applyBeh] at h; injection h with h; injection h with _ h2; subst h2; simp
   | fail cls => simp [applyBeh] at h
+  | echo => simp only [applyBeh] at h; injection h with h; injection h with _ h2; subst h2; simp
 
 theorem mapBeh_writes_declared (b : Beh) (declared : List String) (ps : List Val) :
     ∀ (xs ys : List Val) (ws : List (String × Val)), mapBeh b declared ps xs = .ok (ys, ws) →
